@@ -51,6 +51,9 @@ RULE = ("inputs = corpus of 12 valid requests / 12 valid responses, each either 
         "code 100..599 (thorough). "
         "Every 20th input is a followed redirect (300/301/302/303/307) whose Location has an out-of-range / huge / zero / signed / "
         "non-ASCII-digit port or an odd authority (userinfo, empty host, IPv6, trailing dot), serviced for >= 8 passes afterwards. "
+        "Every 20th input is an event stream with a hostile retry: value (hundreds / thousands of digits, 0, signed, non-ASCII digits, "
+        "1e400, blanks) after which the scripted server cuts the connection; the client is reconnectable and its clock advances, so "
+        "the value is used for the reconnect timer; >= 16 passes follow. "
         "Non-trivial = not a control and hio received the hostile bytes; distinct = by role and byte string.")
 ASSUMPTIONS = [
     "plain TCP on 127.0.0.1 only (no TLS); peers never close abortively during a case (socket-level faults are C10's subject)",
@@ -67,7 +70,7 @@ TIMEOUT_S = {"quick": 280, "thorough": 1700}
 PEAK_COUNTERS = ("rounds_max",)
 REQUIRE = {"server_cases": 2000, "client_cases": 1000, "service_rounds": 30000, "hostile_bytes_received_by_hio": 300000,
            "sibling_exact_responses": 1200, "reject_inputs_judged": 150, "controls_ok": 100, "fragmented_inputs": 1000,
-           "status_lines_without_or_with_unlisted_reason": 200, "redirects_with_odd_port_or_authority": 200, "scheduled_json_and_sse_bodies": 200, "complete_responses_required_queued": 100,
+           "status_lines_without_or_with_unlisted_reason": 200, "redirects_with_odd_port_or_authority": 200, "scheduled_json_and_sse_bodies": 200, "event_streams_cut_on_reconnectable_client": 120, "reconnects_after_cut": 120, "complete_responses_required_queued": 100,
            "lines_httping": 150, "lines_serving": 150, "lines_clienting": 150}
 
 _state = {"ports": None, "cov": False}
@@ -78,7 +81,7 @@ def cases(tier, seed, shard, nshards):
     rng = random.Random(f"{seed}:C16:{shard}")
     n = (4800 if tier == "quick" else 200000) // nshards
     sts = gh.status_schedule(tier)      # status lines without / with an unlisted reason phrase, on a fixed schedule
-    nst = nloc = nbody = ntgt = 0
+    nst = nloc = nbody = ntgt = nretry = 0
     for i in range(n):
         r = rng.random()
         role = "wsgi" if r < 0.40 else ("bare" if r < 0.65 else "client")
@@ -96,6 +99,10 @@ def cases(tier, seed, shard, nshards):
             role = "client"
             inp = gh.gen_body_case(shard * ((n + 19) // 20) + nbody)     # malformed / deeply nested JSON and SSE bodies
             nbody += 1
+        elif i % 20 == 6:
+            role = "client"
+            inp = gh.gen_retry_case(shard * ((n + 19) // 20) + nretry)    # SSE retry values, used on reconnect
+            nretry += 1
         elif i % 20 == 5:
             k = shard * ((n + 19) // 20) + ntgt
             role = "wsgi" if (k // len(gh.TARGETS)) % 3 < 2 else "bare"
@@ -125,10 +132,12 @@ def cases(tier, seed, shard, nshards):
             sched.append(t)
         case = dict(inp)
         case.update({"role": role, "cuts": cuts, "sched": sched, "eof": rng.random() < 0.3})
+        if case.get("reconnect"):
+            case["eof"] = True      # the server cuts the stream; the client is reconnectable and its clock advances
         if role == "client":
             case["method"] = rng.choice(["GET", "GET", "GET", "HEAD", "POST"])
             case["dictable"] = inp.get("dictable", rng.random() < 0.3)
-        if (case["control"] or "queued" in case) and case.get("method") == "HEAD":
+        if (case["control"] or "queued" in case or case.get("reconnect")) and case.get("method") == "HEAD":
             case["method"] = "GET"      # the corpus responses carry bodies: they answer GET/POST, not HEAD
         if case["control"] and (role != "client" or case["shape"][0] == "control:redirect"):
             # a half-closing client is (silently) dropped by hio servers, and a redirect cannot be followed on a
@@ -392,7 +401,11 @@ def run_client(case, ctx):
         data = gh.expand(case["segs"]).replace(gh.PORT, str(port).encode())
         frs = fragments(data, [c for c in case["cuts"] if c < len(data)])
         sched = case["sched"][:len(frs)]
-        client = hl.open_hio_client(port, dictable=case["dictable"])
+        reconnect = bool(case.get("reconnect"))
+        if reconnect:
+            client = hl.open_hio_client(port, dictable=case["dictable"], reconnectable=True, tymeout=0.25)
+        else:
+            client = hl.open_hio_client(port, dictable=case["dictable"])
         kw = {"method": case["method"], "path": "/c16/probe"}
         if case["method"] == "POST":
             kw["body"] = b"ping"
@@ -406,6 +419,8 @@ def run_client(case, ctx):
         shut_at = None
         for rnd in range(nrounds + GRACE):
             ctx.count("service_rounds")
+            if reconnect:
+                client._vf_tymist.tyme += 0.125        # virtual time runs: the reconnect timer expires and is restarted
             try:
                 client.service()
             except Exception as ex:
@@ -452,7 +467,7 @@ def run_client(case, ctx):
             if case["control"] and case["shape"][0] == "control:close_delim" and not case["eof"]:
                 must = False
             waiting = must or full_at is None
-            if not waiting and rnd >= full_at + 8:      # keep servicing: a redirect only shows on the passes after it
+            if not waiting and rnd >= full_at + (16 if reconnect else 8):   # keep servicing: a redirect / reconnect only shows on later passes
                 break
             if rnd + 1 >= nrounds and not must:
                 break
@@ -492,6 +507,10 @@ def run_client(case, ctx):
         if case["shape"][0] == "location_sched":
             ctx.count("redirects_with_odd_port_or_authority")
             ctx.count("client_passes_after_redirect_response", rnd - (full_at if full_at is not None else rnd))
+        if reconnect:
+            ctx.count("event_streams_cut_on_reconnectable_client")
+            ctx.count("reconnects_after_cut", len(extra))
+            ctx.seen("retry_values_used", repr(client.respondent.retry)[:40])
         if case["shape"][0] == "body_sched":
             ctx.count("scheduled_json_and_sse_bodies")
         if "queued" in case:
